@@ -242,6 +242,15 @@ theorem sweep_awaits_only_the_hook :
     Gen.Site.removeExpiredAwaits.filter (· == "await") = ["await"] ∧
     Gen.Site.removeExpiredAwaits.take 5 = ["for", "del:_store", "expired", "await", "end-for"] := by decide
 
+/-- TIE TO THE SOURCE for the turn-level model's premise (Model/SweepTasks.lean: "the only place where the operations give
+    up control is the hook awaited by the sweep"): `put`, `get`, `put_delivery` and `get_delivery` each contain exactly one
+    `await`, that of `_remove_expired`; `put` / `put_delivery` store after it, `get` / `get_delivery` have popped before it. -/
+theorem operations_await_only_the_sweep :
+    Gen.Site.corrPutAwaits = ["_remove_expired", "await", "set:_store"] ∧
+    Gen.Site.corrGetAwaits = ["pop:_store", "_remove_expired", "await"] ∧
+    Gen.Site.putDeliveryAwaits = ["_remove_expired", "await", "set:_delivery_store"] ∧
+    Gen.Site.getDeliveryAwaits = ["pop:_delivery_store", "_remove_expired", "await"] := by decide
+
 end SmppVerif.Props.C14
 
 #print axioms SmppVerif.Props.C14.put_is_sweep_then_store
@@ -261,4 +270,5 @@ end SmppVerif.Props.C14
 #print axioms SmppVerif.Props.C14.atomic_sweep_is_uninterrupted_turns
 #print axioms SmppVerif.Props.C14.control_given_up_only_at_hook
 #print axioms SmppVerif.Props.C14.sweep_awaits_only_the_hook
+#print axioms SmppVerif.Props.C14.operations_await_only_the_sweep
 #print axioms SmppVerif.Props.C14.correlator_step_order
